@@ -332,6 +332,8 @@ double Inv_GammaP(double p, double a)
 			t = afac * exp(-(x - a1) + a1 * (log(x) - lna1));
 		else
 			t = exp(-x + a1 * log(x) - gln);
+		if(!(t > 0.0))	 // the density underflows: x lies so far in the tail that no finite correction exists
+			break;
 		double u = error / t;
 		x -= (t = u / (1. - 0.5 * std::min(1., u * ((a - 1.) / x - 1))));
 		if(x <= 0.)
